@@ -5,7 +5,7 @@
 From Coq Require Import ZArith List Bool.
 From AV Require Import Base.PyList Base.PyFloat Tok.Model Tok.Spec Tok.OnlineSpec
   Audio.Region IO.Source IO.Reader Audio.Pcm IO.Wav Audio.Energy Split.Duration Cli.Format
-  Conc.Workers Extract.Tree.
+  Conc.Workers Split.Split Extract.Tree.
 Import ListNotations.
 Open Scope Z_scope.
 
@@ -207,6 +207,33 @@ Definition api_wav_encode (a : tree) : tree :=
 Definition api_wav_decode (a : tree) : tree :=
   eOpt (fun x => Node [Leaf (wrate x); Leaf (wwidth x); Leaf (wch x); eZs (wdata x)]) (wav_decode (tZs a)).
 
+
+(* ------------------------------------------------------------ split *)
+
+Definition eSplitRegion (rate w ch W : Z) (r : list Z * Z * Z) : tree :=
+  let '(d, s, e) := r in
+  Node [eZs d; Leaf s; Leaf e; eF (region_start s W rate); eF (region_end s W rate (zlen d) w ch);
+        eF (region_duration (zlen d) rate w ch)].
+
+(* 70: [data, rate, w, ch, minF, maxF, silF, awF, strict, drop, sel, p, q, mxOpt] -> result regions *)
+Definition api_split_energy (a : tree) : tree :=
+  let rate := tZ (arg a 1) in let w := tZ (arg a 2) in let ch := tZ (arg a 3) in
+  let W := match py_int (fmul (tF (arg a 7)) (of_Z rate)) with Some x => x | None => 0 end in
+  eRes (eL (eSplitRegion rate w ch W))
+       (split_energy (tZs (arg a 0)) rate w ch (tF (arg a 4)) (tF (arg a 5)) (tF (arg a 6)) (tF (arg a 7))
+                     (tB (arg a 8)) (tB (arg a 9)) (dSel (arg a 10)) (tZ (arg a 11)) (tZ (arg a 12)) (tOpt tZ (arg a 13))).
+
+(* 71: [data, rate, w, ch, minF, maxF, silF, awF, strict, drop, verdicts, mxOpt] -> result regions *)
+Definition api_split_custom (a : tree) : tree :=
+  let rate := tZ (arg a 1) in let w := tZ (arg a 2) in let ch := tZ (arg a 3) in
+  let W := match py_int (fmul (tF (arg a 7)) (of_Z rate)) with Some x => x | None => 0 end in
+  eRes (eL (eSplitRegion rate w ch W))
+       (split_custom (tZs (arg a 0)) rate w ch (tF (arg a 4)) (tF (arg a 5)) (tF (arg a 6)) (tF (arg a 7))
+                     (tB (arg a 8)) (tB (arg a 9)) (tBs (arg a 10)) (tOpt tZ (arg a 11))).
+
+(* 72: [tF, rate] -> option round(t*rate)  (max_read in samples) *)
+Definition api_round_mul (a : tree) : tree := eOpt eZ (py_round (fmul (tF (arg a 0)) (of_Z (tZ (arg a 1))))).
+
 Definition dispatch (op : Z) (a : tree) : tree :=
   match op with
   | 1 => api_tokenize a
@@ -236,5 +263,8 @@ Definition dispatch (op : Z) (a : tree) : tree :=
   | 61 => api_to_array a
   | 62 => api_wav_encode a
   | 63 => api_wav_decode a
+  | 70 => api_split_energy a
+  | 71 => api_split_custom a
+  | 72 => api_round_mul a
   | _ => Node [Leaf 1; Leaf (-1)]
   end.
